@@ -98,6 +98,11 @@ def _verify_case(repo, reg, c, ci, case, canary):
             if res.paths > MAX_PATHS:
                 raise Unsupported("more than %d paths in %s" % (MAX_PATHS, c.qual))
             E.start_path(dec)
+            if getattr(c, "dedupe", False):
+                # bound-variable names are numbered from this counter: restarting it on every path makes the terms of
+                # a shared path prefix identical (hash-consed) on every path, which is what `dedupe` compares
+                import itertools as _it
+                E.counter = _it.count()
             E.ob_prefix = prefix
             E.stmt_hooks = hooks
             E.raises_decl = c.raises
